@@ -167,7 +167,7 @@ func init() {
 		},
 		Subs: []h.Sub{
 			{
-				Name: "resample-and-interval", Count: h.Fixed(40000, 4000000),
+				Name: "resample-and-interval", Count: h.Fixed(40000, 40000000),
 				Run: func(c *h.Ctx, idx uint64, r *h.Rand) {
 					dfi := dfs[r.Intn(len(dfs))]
 					in := genLine(r, dfi.geo)
